@@ -29,7 +29,7 @@ OBLIGATIONS = [
         desc="dirnode.update_metadata: linkmotime=now; linkcrtime kept, else old ctime, else now; caller's 'tahoe' ignored, other old "
              "tahoe keys kept; metadata replaces user keys, None keeps them; result == metadata model; caller's dict not modified"),
     chx("adder", "C20_h", "h_adder", timeout=T,
-        cases={"quick": [_c("overwrite", ow=[0, 1, 2], raw=[1, 2], a=[0, 1, 2, 3], shape=[0], n=[0, 1], nm=[0, 1]),
+        cases={"quick": [_c("overwrite", ow=[0, 1, 2], raw=[1, 2], a=[0, 1, 2, 3], shape=[0], n=[0], nm=[0, 6]),
                          _c("metadata", ow=[0], raw=[3], a=[0, 1, 4], n=[0]),
                          _c("diminish", ow=[0], raw=[0, 1], a=[0, 1], shape=[0], nm=[0, 3, 4, 5]),
                          _c("names", raw=R7, a=[0, 2], shape=[0], n=[0], nm=[0])],
@@ -37,7 +37,7 @@ OBLIGATIONS = [
         desc="Adder.modify (entries= and set_node): symbolic overwrite mode, name (incl. NFC-equivalent spellings), presence/kind/read-only-ness "
              "of the existing child, shape of old and new metadata, no-write: result == map-model add, or ExistingChildError exactly when "
              "overwrite=False and present / ONLY_FILES and a directory is present, with the contents unchanged. Selector lists of each case are in its bounds "
-             "(absent key = full range: ow 0..2, raw 0..6, a 0..4, shape 0..3, n 0..4, nm 0..5)"),
+             "(absent key = full range: ow 0..2, raw 0..6, a 0..4, shape 0..3, n 0..4, nm 0..6); first_time (retry flag) symbolic"),
     chx("adder_two", "C20_h", "h_adder_two", timeout=T,
         cases={"quick": [_c("collide", raw=[0, 1, 2], a=[0, 2], k=[0]),
                          _c("only_files", raw=[1, 2], ow=[2], a=[0, 1, 2], k=[0, 1]),
@@ -72,7 +72,7 @@ OBLIGATIONS = [
     chx("dir_ops", "C20_h", "h_dir_ops", timeout=T,
         cases={"quick": [_c("add", op=[0, 1], raw=[0, 2], a=[0, 1, 2], shape=[0], n=[0], nm=[0, 4]),
                          _c("delete", op=[2], raw=[0, 2, 4]),
-                         _c("setmd", op=[3], raw=[0, 3], a=[0, 1, 3, 4], shape=[0, 1], nm=[1, 4, 5])],
+                         _c("setmd", op=[3], raw=[0, 3], a=[0, 1, 3, 4], shape=[0, 1], nm=[1, 4, 6])],
                "thorough": [_c("add_raw%d" % r, op=[0, 1], raw=[r], shape=[0, 1]) for r in (0, 1, 2, 3, 4, 6)] +
                            [_c("delete", op=[2]), _c("setmd", op=[3])]},
         desc="DirectoryNode.set_node / set_nodes / delete / set_metadata_for (real, incl. _create_readonly_node) on a fake backing file: result "
